@@ -19,7 +19,9 @@ def write_replay(pid, ob, outdir):
         native = {"reproduced": False, "error": repr(e)[:500]}
     doc = {"property": pid, "obligation": ob["id"], "kind": ob["kind"], "backend": ob["backend"],
            "detail": ob.get("detail", ""), "solver_model": ob.get("model", ""), "native_replay": native,
-           "how_to_replay": f"./check replay {path}"}
+           "how_to_replay": f"./check replay {path}",
+           "verdict": "violation with a failing input replayed on the real code" if reproduced else
+                      "violation: the named obligation is refuted / no longer discharged; no-failing-input-found"}
     with open(path, "w") as f:
         json.dump(doc, f, indent=1)
     return path, reproduced
@@ -29,9 +31,9 @@ def main(path):
     doc = json.load(open(path))
     print(json.dumps({k: doc[k] for k in ("property", "obligation", "backend")}, indent=1))
     nat = doc.get("native_replay")
-    if nat and nat.get("script"):
+    if nat and nat.get("command"):
         import subprocess
-        p = subprocess.run(["/venv/bin/python", "-c", nat["script"]], capture_output=True, text=True, cwd="/repo")
+        p = subprocess.run(nat["command"], shell=True, capture_output=True, text=True)
         print(p.stdout[-3000:], p.stderr[-2000:])
         return 1 if "REPRODUCED" in p.stdout else 0
     print("no native replay available for this obligation; solver model follows\n", doc.get("solver_model", "")[:4000])
